@@ -3,7 +3,7 @@
    no Extract Constant of ours; N / positive / byte / string stay Coq inductives. *)
 Require Extraction.
 Require Import ExtrOcamlBasic.
-From Jamm Require Import Bytes Fnv Consts CLayout Meta Spec Codec Tree CheckM Cursor PL Freelist Conc ApiSig ApiFlow Engine EngineAbs SpecPath.
+From Jamm Require Import Bytes Fnv Consts CLayout Meta Spec Codec Tree CheckM Cursor PL Freelist Conc ApiSig ApiFlow Engine EngineAbs SpecPath EngineRefines.
 Extraction Language OCaml.
 Set Extraction KeepSingleton.
 Separate Extraction
@@ -21,4 +21,5 @@ Separate Extraction
   ApiSig.api ApiFlow.anchoredb ApiFlow.sens_in ApiFlow.is_anchor_ty ApiFlow.none_send ApiFlow.db_shareable
   Engine.run_tx Engine.run_tx_auto Engine.init_db Engine.reopen_db Engine.dget
   EngineAbs.abs_db EngineAbs.sem_tx Spec.strip
-  SpecPath.path_step SpecPath.pinit SpecPath.expand.
+  SpecPath.path_step SpecPath.pinit SpecPath.expand
+  EngineRefines.checkedb EngineRefines.readableb EngineRefines.db_alloc_okb.
